@@ -416,6 +416,25 @@ func (g *rootRig) apply(typ kcache.EventType, o metav1.Object) ([]kcache.Event, 
 	return evts, nil
 }
 
+// relist feeds a whole list through the cache and publishes the resulting events,
+// as controller.run does for a (re)list: objects that are gone are announced by
+// Delete events that carry the cached object.
+func (g *rootRig) relist(list []metav1.Object) ([]kcache.Event, error) {
+	evts, err := g.root.Cache().Sync(list)
+	if err != nil {
+		return nil, err
+	}
+	for _, e := range evts {
+		g.sentMu.Lock()
+		g.sent = append(g.sent, evrec{e.Type(), kit.Key(e.Resource()), e.Resource().GetResourceVersion(), e.Resource(), time.Now()})
+		g.sentMu.Unlock()
+		if err := g.root.Send(e); err != nil {
+			return evts, err
+		}
+	}
+	return evts, nil
+}
+
 // mutate applies a random put/delete with a fresh unique version.
 func (g *rootRig) mutate(rng *kit.Rng, u universe) ([]kcache.Event, error) {
 	ns := u.nss[rng.Intn(len(u.nss))]
